@@ -88,9 +88,20 @@ G.update({
     "G7": (["dims-create-divisibility-regressed", "history-iterator-keeps-visited-maximal", "uint64-reduced-as-signed",
             "wait-any-zero-timeout-ignored", "clock-skips-actor-with-stale-entry", "receiver-framed-with-sender-offset"], "104/104"),
 })
+G.update({
+    "G8": (["from-variable-early-exit", "timeout-cancel-swap-with-last", "waitany-count-mismatch",
+            "release-loop-keeps-unblocked-entries", "cancel-erases-from-copy", "dax-zero-size-file-drops-edge"], "104/104"),
+    "G9": (["no-recursion-through-fatpipe", "release-grants-only-blocked-waiter", "sem-capacity-clamped",
+            "s4u-fast-path-last-arriver", "signal-grants-only-blocked-waiter", "json-parent-listed-later-dropped"],
+           "103/104; the 1 failure (tesh-self-background) is load flakiness: " + FLAKY),
+    "G10": (["mc-timeout-loses-cancel"], "104/104"),
+})
 for g, (names, res) in G.items():
     for n in names:
-        STATION[n] = "pass, tested together with the other patches of group %s (disjoint files): %s" % (g, res)
+        if len(names) == 1:
+            STATION[n] = "pass (alone): " + res
+            continue
+        STATION[n] ="pass, tested together with the other patches of group %s (disjoint files): %s" % (g, res)
 STRENGTHENED = {
     "real-interpolation-rewritten": "first run undecided (cvc5 timeout on the mutated formula); the uniform_real obligations now run as a SAT/cvc5 solver race and SAT refutes the mutant in 7 s",
     "prefix-scale-integer-wrap": "first run missed (the table generator is outside cxx2c's subset); C27 now enumerates the real tables natively (specs/C27/tables.cpp)",
